@@ -195,8 +195,8 @@ def rule_reject_complete(ctx):
 
 
 RULES = [
-    ("GRAMMAR", lambda ctx: (rule_grammar(ctx), rule_segments(ctx), rule_qloop(ctx)), 24),
-    ("DECODE-ALL", lambda ctx: None, 8),
+    ("GRAMMAR", lambda ctx: (rule_grammar(ctx), rule_segments(ctx), rule_qloop(ctx)), 23),
+    ("DECODE-ALL", lambda ctx: None, 7),
     ("ALPHABET", rule_alphabet, 2),
     ("REJECT-COMPLETE", rule_reject_complete, 20),
 ]
